@@ -53,6 +53,7 @@ fixed("FX-C09-02", "C09", "57be1d1", "refill inside an escaped struct key lost t
 fixed("FX-C02-04", "C02", "3851b65", "null into a non-nil []byte left the old bytes: Unmarshal({\"q\":\"\",\"q\":null}) kept q = []byte{} (encoding/json: nil), also for pre-populated destinations and in stream mode")
 fixed("FX-C07-03", "C07", "3851b65", "null into a pre-populated []byte field kept the old bytes (was KF-C07-01 / KF-C02-05)")
 fixed("FX-C04-01", "C04", "57be1d1", "own output > 512 bytes with an escaped struct key decoded with Unmarshal but not with Decoder (was KF-C04-STREAM / KF-C02-07 / KF-C02-07b; completed by b177bea, 17431c1, 9207e74)")
+fixed("FX-C06-06", "C06", "32c4673", "Decoder.Decode({\"f\":\"{\\\"A\\\":1}\"}) into struct{F *In `json:\"f,string\"`} panicked (nil pointer dereference in structDecoder.Decode: wrappedStringDecoder.DecodeStream built a RuntimeContext without Option)")
 fixed("FX-C15-01", "C15", "57be1d1", "Decoder fed 5-byte chunks failed on fully \\u-escaped keys")
 
 fixed("FX-C06-04", "C06", "0243e9f", "Compact/Indent of a 100000-deep tower: fatal out of memory / stack overflow (no nesting limit)")
